@@ -14,6 +14,7 @@ import json, os, re, shutil, subprocess, sys, time
 from concurrent.futures import ThreadPoolExecutor
 
 REPO = "/repo"
+NIGHTLY = "--nightly" in sys.argv  # sweep of src/histogram_const.rs (exists only with the nightly feature)
 SCRATCH = "/var/tmp/avgmc-mut"
 ENV = dict(os.environ, CARGO_NET_OFFLINE="true")
 
@@ -105,6 +106,12 @@ def setup_worker(k):
     open(f"{w}/mc/.cargo/config.toml", "w").write(cfg)
     os.makedirs(f"{w}/out", exist_ok=True)
     # warm builds
+    if NIGHTLY:
+        run("cargo +nightly test --offline --features nightly --no-run", f"{w}/repo")
+        rc, out = run("cargo +nightly build --profile constq --features nightly --offline 2>&1", f"{w}/mc")
+        if rc != 0 or "Finished" not in out:
+            raise SystemExit(f"worker {k}: the nightly engine copy does not build:\n{out[-2000:]}")
+        return w
     run("cargo test --offline --no-run", f"{w}/repo")
     rc, out = run("cargo build --release --offline 2>&1", f"{w}/mc")
     if rc != 0 or "Finished" not in out:
@@ -124,22 +131,26 @@ def evaluate(w, m):
     open(path, "w").write("\n".join(lines))
     res = dict(m)
     try:
-        rc, out = run("cargo test --offline 2>&1 | grep -E '^test result|^error|FAILED|panicked' | head -8", f"{w}/repo", timeout=600)
+        tcmd = "cargo +nightly test --offline --features nightly" if NIGHTLY else "cargo test --offline"
+        rc, out = run(tcmd + " 2>&1 | grep -E '^test result|^error|FAILED|panicked' | head -8", f"{w}/repo", timeout=600)
         if "error" in out and "test result" not in out:
             res["status"] = "does-not-compile"
             return res
         if "FAILED" in out or out.count("test result: ok") < 3:
             res["status"] = "killed-by-repo-tests"
             return res
-        rc, out = run("cargo build --release --offline 2>&1", f"{w}/mc", timeout=900)
+        bcmd = "cargo +nightly build --profile constq --features nightly --offline 2>&1" if NIGHTLY else "cargo build --release --offline 2>&1"
+        rc, out = run(bcmd, f"{w}/mc", timeout=900)
         if rc != 0 or "Finished" not in out:
             res["status"] = "engine-does-not-compile"
             return res
         env = f"AVGMC_OUT={w}/out"
         alarms = []
-        for i in range(1, 21):
+        binary = f"{w}/target/constq/avgmc" if NIGHTLY else f"{w}/target/release/avgmc"
+        only = " --only Const" if NIGHTLY else ""
+        for i in ([6, 12, 13] if NIGHTLY else range(1, 21)):
             pid = f"C{i:02d}"
-            rc, out = run(f"{env} timeout 600 {w}/target/release/avgmc --property {pid} --tier quick 2>/dev/null | grep -E '^VIOLATION|signature=|^property=|ENGINE' | head -3; echo rc=${{PIPESTATUS[0]}}", f"{w}/mc", timeout=700)
+            rc, out = run(f"{env} timeout 600 {binary} --property {pid} --tier quick{only} 2>/dev/null | grep -E '^VIOLATION|signature=|^property=|ENGINE' | head -3; echo rc=${{PIPESTATUS[0]}}", f"{w}/mc", timeout=700)
             res.setdefault("log", []).append(pid + " " + out.strip().replace("\n", " | ")[-160:])
             if "rc=124" in out or "rc=137" in out:
                 res["status"] = "TIMEOUT-OR-KILLED"
